@@ -262,7 +262,8 @@ UNITS += [
     Unit("tm.wait", "wait.c", defines=ENUM_DEFS, enforce="thread_manager_wait",
          lifts={"body": Lift(TM, r"void thread_manager::wait\(\)", rules=[
              YieldWhile(None), ACTIVITY,
-             Sub(r"(?:pika::)?threads::detail::get_self_ptr\(\)", "get_self_ptr()", None)],
+             Sub(r"(?:pika::)?threads::detail::get_self_ptr\(\)", "get_self_ptr()", None),
+             Sub(r"(?:pika::)?get_(?:local_)?worker_thread_num\(\)", "get_worker_thread_num()", None)],
              loops={1: WAIT_LOOP, "count": 1})},
          funcs=[TM + ": thread_manager::wait"], min_obligations=5,
          doc="returns only on a predicate evaluation that read count <= (caller is a pika task ? 1 : 0); yields otherwise"),
